@@ -132,3 +132,28 @@ impl WriteBackend for SwappedStore {
         Ok(())
     }
 }
+
+/// U04.1b process_data (blob path, compression off): the bytes handed to the packer are the key's ciphertext of
+/// the chunk, the recorded plain length is the chunk length, no uncompressed length without compression;
+/// with the extra verification on, a ciphertext that does not decrypt back is refused.
+#[kani::proof]
+#[kani::unwind(6)]
+#[kani::stub(crate::error::RusticError::new, es::new_stub)]
+fn c04_process_data_yields_verified_ciphertext() {
+    let key = MockKey { fail_encrypt: kani::any(), fail_decrypt: kani::any() };
+    let extra_verify: bool = kani::any();
+    let (dbe, log) = setup(0, key, extra_verify);
+    let d: [u8; 2] = [kani::any(), kani::any()];
+    let r = dbe.process_data(&d);
+    match &r {
+        Ok((enc, len, ul)) => {
+            assert!(!key.fail_encrypt && !(extra_verify && key.fail_decrypt));
+            assert!(enc.len() == 3 && enc[0] == 0xEE && enc[1] == d[0] && enc[2] == d[1], "ciphertext of exactly this chunk");
+            assert!(*len == 2 && ul.is_none());
+        }
+        Err(_) => assert!(key.fail_encrypt || (extra_verify && key.fail_decrypt)),
+    }
+    assert!(log.len() == 0, "process_data itself stores nothing");
+    kani::cover!(r.is_ok() && extra_verify);
+    core::mem::forget(r);
+}
